@@ -25,7 +25,7 @@ Definition pmsk : parser msk :=
   else if t =? 1 then (a <- pqarr ;; pret (MMono a))
   else (l <- plist pqarr ;; pret (MCube l)).
 Definition pplane : parser plane :=
-  a <- pfld ;; o <- pfld ;; m <- pmsk ;; ps <- popt (ppair pQ pQ) ;; pret (mkPlane a o m ps).
+  a <- pfld ;; o <- pfld ;; m <- pmsk ;; ps <- popt (ppair pQ pQ) ;; t <- plist (ppair pQ pQ) ;; pret (mkPlane a o m ps t).
 
 Definition esamp (x : samp) : list Z :=
   match x with Known v => 0 :: eQ v | NonZero => [1] | Unknown => [2] end.
@@ -36,7 +36,9 @@ Definition eoarr (a : oarr) : list Z :=
 Definition eofld (f : ofld) : list Z := match f with OScalar v => 0 :: eQ v | OArr a => 1 :: eoarr a end.
 Definition eomsk (m : omsk) : list Z := match m with OMono a => 1 :: eoarr a | OCube l => 2 :: elist eoarr l end.
 Definition eoplane (P : oplane) : list Z :=
-  eofld (o_amp P) ++ eofld (o_opd P) ++ eomsk (o_mask P) ++ eopt (fun p => eQ (fst p) ++ eQ (snd p)) (o_ps P).
+  eofld (o_amp P) ++ eofld (o_opd P) ++ eomsk (o_mask P) ++ eopt (fun p => eQ (fst p) ++ eQ (snd p)) (o_ps P)
+  ++ elist (fun p => eQ (fst p) ++ eQ (snd p)) (o_tilt P)
+  ++ elist (fun b => match b with (r0, r1, c0, c1) => [r0; r1; c0; c1] end) (o_slice P).
 
 Definition call (op : Z) (q : Qc) (P : plane) : list Z :=
   if op =? 1 then eresult eoplane (plane_rescale P q)
@@ -47,17 +49,15 @@ Definition pstep : parser (Z * Qc * plane) := op <- pZ ;; q <- pQ ;; P <- pplane
 
 (* op 4: lentil.rescale(img, scale, shape, mask, order, mode, unitary) called directly.
    input: order (0 = (3,'nearest'), 1 = (0,'constant')), scale, img arr, shape (0 | 1 a | 2 a b),
-          mask (0 = None | 1 arr eps | 2 = explicit integer/bool mask), unitary flag *)
+          mask (0 = None | 1 arr eps), unitary flag *)
 Definition pshape : parser shapearg :=
   t <- pZ ;; if t =? 0 then pret ShNone else if t =? 1 then (a <- pZ ;; pret (ShScalar a)) else (a <- pZ ;; b <- pZ ;; pret (ShPair a b)).
-Definition ppm : parser (option (qarr * Qc) * bool) :=
-  t <- pZ ;; if t =? 0 then pret (None, false)
-  else if t =? 1 then (a <- pqarr ;; e <- pQ ;; pret (Some (a, e), false))
-  else pret (None, true).
+Definition ppm : parser (option (qarr * Qc)) :=
+  t <- pZ ;; if t =? 0 then pret None else (a <- pqarr ;; e <- pQ ;; pret (Some (a, e))).
 Definition run_util (rest : list Z) : list Z :=
   match pall (o <- pZ ;; q <- pQ ;; img <- pqarr ;; sh <- pshape ;; pm <- ppm ;; u <- pbool ;; pret (o, q, img, sh, pm, u)) rest with
-  | Some (o, q, img, sh, (pm, pmint), u) =>
-      eresult eoarr (rescale_gen (if o =? 0 then Cubic else Nearest0) img q sh pm pmint u)
+  | Some (o, q, img, sh, pm, u) =>
+      eresult eoarr (rescale_gen (if o =? 0 then Cubic else Nearest0) img q sh pm u)
   | None => emalformed
   end.
 
